@@ -966,6 +966,38 @@ pub fn run(ctx: &Ctx, prop: &str) -> Report {
         });
         stage("ribbon.rounded_up_buffers", r, &mut rep, t0);
     }
+    // (a6) a controller that has been polled for a long time (idle, and one long contact): presses of exactly the
+    // required length and one sample less must still be told apart (no clock or counter may have drifted)
+    if !small {
+        let t0 = std::time::Instant::now();
+        let aged: Vec<u32> = vec![1000, 10_000, 44_100, 48_000, 96_000, 192_000];
+        let r = par_shards(ctx, aged.len(), |j| {
+            let mut rep = Report::new();
+            let rate = aged[j];
+            let cfg = Cfg { rate, softpot: 20e3, dropper: 820.0, pullup: 1e6, frac: 0.0, cap: 0 };
+            let b = cfg.boundary() as f32;
+            let l = cfg.run_len() as u64;
+            let mut ops = vec![Op::Poll(1.0, 150_000 + (ctx.seed % 1000))];
+            for k in 0..3u64 {
+                ops.push(Op::Poll(0.3 * b, l - 1));
+                ops.push(Op::Poll(1.0, 1 + k));
+                ops.push(Op::ReadPressed);
+                ops.push(Op::Poll(0.6 * b, l));
+                ops.push(Op::ReadPressed);
+                ops.push(Op::Poll(1.0, 2));
+                ops.push(Op::ReadReleased);
+                // then a long contact and a long pause before the next round
+                ops.push(Op::Poll(0.4 * b, 120_000 + 7 * k));
+                ops.push(Op::Poll(1.0, 100_000 + 13 * k));
+                ops.push(Op::ReadReleased);
+            }
+            let h = History { cfg, strict: false, ops };
+            run_and_record(&h, prop, &mut rep, false);
+            rep.count("ribbon.aged_controller_histories", 1);
+            rep
+        });
+        stage("ribbon.aged_controller", r, &mut rep, t0);
+    }
     // (b) many more histories on the cheap (small-buffer) rates
     let t0 = std::time::Instant::now();
     let n_hist = ctx.budget(4, 4_000, 300_000) as usize;
